@@ -230,11 +230,14 @@ class HotReloader:
     def stop(self, timeout: float | None = 1.0) -> None:
         """Signal the polling thread to stop and optionally wait for it."""
         with self._lock:
-            if not self._thread:
+            thread = self._thread
+            if not thread:
                 return
             self._stop_event.set()
-            self._thread.join(timeout=timeout)
-            if not self._thread.is_alive():
+        # Join without holding the lock: the polling thread may need it to finish a check.
+        thread.join(timeout=timeout)
+        with self._lock:
+            if self._thread is thread and not thread.is_alive():
                 self._thread = None
 
     # Diagnostics ------------------------------------------------------------
